@@ -98,7 +98,12 @@ SPECIAL = [raw('Infinity'), raw('-Infinity'), raw('NaN'), raw('1e999'), raw('-1e
 STRINGS = [VALID_SH, VALID_SH[:-1], VALID_SH[:-2] + 'zz', 'z' * 64, '', '0', '12', '١٢', '９',
            '9' * 4400, 'a\x00b', '\ud800', 'true', 'null', ' 12 ', '-1', '1e3', '0x10', 'tx',
            'txid', 'block_header', 'merkle_root', 'block_hash', VALID_SH.upper(), VALID_SH + '00',
-           'é' * 32, 'ff' * 32, '00' * 32, 'ab' * 31]
+           'é' * 32, 'ff' * 32, '00' * 32, 'ab' * 31,
+           # 64 characters that bytes.fromhex() accepts but that are not 32 bytes: it skips
+           # whitespace between byte pairs (the script hash is reversed, so the hex that matters
+           # for a key prefix is at the end)
+           ' ' * 64, ' ' * 44 + VALID_SH[-20:], ' ' * 2 + VALID_SH[-62:], VALID_SH[:62] + '\t\n',
+           ('ab ' * 22)[:64], ' ' * 42 + VALID_SH[-22:], 'z' * 5000]
 INTS = [0, 1, -1, 2, 3, 5, 2 ** 31, 2 ** 31 - 1, 2 ** 32, 2 ** 63, 2 ** 63 - 1, 2 ** 64, 10 ** 30,
         -2 ** 63, 2015, 2016, 2017]
 
